@@ -44,6 +44,10 @@ impl Probe for ResolveProbe {
         let n = sc.nrep;
         let stores: Vec<RawStore> = (0..n).map(|r| w0.reps[r].store.snapshot()).collect();
         let staged: Vec<bool> = (0..n).map(|r| has_staging(&w0.reps[r].m)).collect();
+        // blocks each replica has APPLIED (storage may hold melded blocks that were not refreshed yet)
+        let applied: Vec<BTreeSet<String>> = (0..n)
+            .map(|r| w0.reps[r].m.verif_delta_status().into_iter().filter(|(_, s)| *s == "applied").map(|(k, _)| k).collect())
+            .collect();
         for r in 0..n {
             w0.focus();
             let conflicts: Vec<String> = w0.reps[r].m.in_conflict().into_iter().collect();
@@ -130,7 +134,8 @@ impl Probe for ResolveProbe {
                         if s == r || staged[s] || staged[r] {
                             continue;
                         }
-                        if !stores[s].keys().all(|k| stores[r].contains_key(k)) {
+                        // the receiver must know nothing the resolver has not applied
+                        if !stores[s].keys().all(|k| stores[r].contains_key(k)) || !applied[s].is_subset(&applied[r]) {
                             continue;
                         }
                         let o = w.apply(&Op::Sync(s, r));
@@ -207,6 +212,7 @@ pub fn scenarios(thorough: bool) -> Vec<Scenario> {
     v.push(pair_conflict_scenario("pair-edit-hi-vs-delete", 15, 3, &[9], if thorough { 3 } else { 2 }, &[Op::Resolve(1, 0, 0), Op::Resolve(1, 1, 0), Op::Resolve(1, 1, 1), Op::Sync(0, 1)]));
     v.push(pair_conflict_scenario("pair-edit-lo-vs-delete", 16, 3, &[9], if thorough { 3 } else { 2 }, &[Op::Resolve(1, 0, 0), Op::Resolve(1, 1, 0), Op::Resolve(1, 1, 1), Op::Sync(0, 1)]));
     v.push(tie_scenario("pair-tie", if thorough { 3 } else { 2 }, &[]));
+    v.push(three_leaves_scenario("trio-three-leaves", if thorough { 4 } else { 3 }, &[]));
     v
 }
 
